@@ -102,6 +102,7 @@ let handle (line : string) : string =
             let gs' = Stdlib.List.mapi (fun k g -> (nat_of_int k, g)) gs in
             table_of gs' (int_of_string i0) "Z")
      | "rc" :: _ -> "OK"
+     | "rj" :: _ -> "REJECTED"
      | ["ce"; ring; g; x; y; h; t] -> handle_ce ring g x y h t
      | ["co"; _; _; g; x; y; h; t] -> handle_co g x y h t
      | ["cp"; ring; h; t] -> handle_cp ring h t body
